@@ -19,6 +19,7 @@ Inductive lop :=
 | LCleanC (ttl : Z)                     (* Clean() on a log with Compact = true *)
 | LRRead (unc : bool) (start stop : Z) (found : bool) (recs : list rec)   (* reverse reader *)
 | LCleanRoll (ttl : Z) (during : list (list msg * N * list Z))   (* appends that arrive while Clean runs *)
+| LCleanCRoll (ttl : Z) (during : list (list msg * N * list Z))   (* the same with Compact = true *)
 | LROpen (id : nat) (unc : bool) (o : Z) (ok : bool)
 | LRNext (id : nat) (recs : list rec) (e : N).   (* (base, message count, position) per segment *)
 
@@ -91,6 +92,26 @@ Definition step_log (maxb : Z) (cc : bool) (lim : limits) (l : log) (o : lop) : 
                                  end) during (l, true) in
     let segs := retain lim ttl (firstn n (l_segs l1)) ++ skipn n (l_segs l1) in
     (mkLog segs (l_hw l1) (cache_clear_earliest (l_cache l1) (match segs with [] => 0 | s :: _ => s_base s end)) (l_ro l1), ok)
+  | LCleanCRoll ttl during =>
+    (* the cleaner works on the n segments it saw when it started (their content includes what
+       was appended to the then-active one); segments rolled meanwhile are rebased behind *)
+    let n := length (l_segs l) in
+    let '(l1, ok) := fold_left (fun st a => let '(l0, ok0) := st in let '(ms, res, offs) := a in
+                                 match append maxb cc l0 ms with
+                                 | Ok (l', os) => (l', ok0 && N.eqb res 0 && list_eqb Z.eqb os offs)
+                                 | Err => (append_log maxb cc l0 ms, ok0 && N.eqb res 1)
+                                 | Panic => (l0, ok0 && N.eqb res 2)
+                                 end) during (l, true) in
+    let s1 := retain lim ttl (firstn n (l_segs l1)) in
+    let rest := skipn n (l_segs l1) in
+    match s1 with
+    | [] | [_] =>
+      let segs := s1 ++ rest in
+      (mkLog segs (l_hw l1) (cache_clear_earliest (l_cache l1) (match segs with [] => 0 | s :: _ => s_base s end)) (l_ro l1), ok)
+    | _ =>
+      let segs := compact_segs key_of false (l_hw l1) s1 ++ rest in
+      (mkLog segs (l_hw l1) (cache_assign_all [] (concat (map s_recs segs))) (l_ro l1), ok)
+    end
   | LLayout lay => (l, list_eqb layout_eqb (map (fun s => (s_base s, s_count s, s_pos s)) (l_segs l)) lay)
   | LROpen _ _ _ _ => (l, true)
   | LRNext _ _ _ => (l, true)
